@@ -244,6 +244,20 @@ def rule_channel(ctx, f):
             ctx.ob("C-CHANNEL", "rule-feeds-return-channel:" + ty, good,
                    "a msg_type(%s) rule is registered with a sender of the method-return channel" % ty if good else
                    "no msg_type(%s) rule is registered on the method-return channel: such replies never reach pending calls" % ty, where)
+        # the reply channel never drops: no overflow mode on it here, no lossy channel operation anywhere in zbus
+        # (the channel is type-erased in the sender map, so the second half is a whole-crate who-may-call rule)
+        lossy = [c for c in mir.calls(new) if c.is_("set_overflow") and "async_broadcast" in (c.callee + c.declared)
+                 and c.args and (L.op_in(c.args[0], der) or
+                                 (mir.origin(new, c.args[0])[0] in ("ref", "place") and mir.origin(new, c.args[0])[1][0] in der))]
+        ctx.ob("C-CHANNEL", "return-channel-not-lossy", not lossy,
+               "no set_overflow on the method-return channel: a full queue back-pressures the reader instead of evicting replies"
+               if not lossy else "overflow mode is switched on for the method-return channel: a burst of replies evicts unread ones "
+               "and their pending calls never complete", lossy[0].where if lossy else L.wh(new, ln))
+        anyl = [(b2, c) for b2 in f.all_bodies("zbus") for c in mir.calls(b2)
+                if "async_broadcast::" in (c.callee + " " + c.declared) and c.is_("set_overflow", "try_broadcast")]
+        ctx.ob("C-CHANNEL", "no-lossy-channel-operation-in-zbus", not anyl,
+               "zbus never calls set_overflow / try_broadcast on an async_broadcast channel" if not anyl else
+               "lossy channel operation in %s" % anyl[0][0].root, anyl[0][1].where if anyl else "-")
         # the sender map handed to the reader is the one the rules were inserted into
         ms = L.agg_field(rv, "msg_senders")
         maps = {mir.root_local(new, ins.args[0]) if mir.origin(new, ins.args[0])[0] not in ("ref",) else mir.origin(new, ins.args[0])[1][0] for ins in inserts}
